@@ -75,4 +75,27 @@ def restartView (remoteType : Nat) (types : List Nat) (d : Disk) : View :=
 /-- all records of a unit carry its work type (no rewrite changes it) -/
 def sameType (wt : Nat) (l : List Rec) : Prop := ∀ r ∈ l, r.wt = wt
 
+/-! ## looking a unit up while the node is still registering its work types -/
+
+/-- the units a node holds in memory and the units that have a readable record on disk -/
+structure Reg where
+  active : List Nat
+  disk : List Nat
+  deriving DecidableEq, Repr
+
+/-- `findUnit`: the table first; on a miss the unit's directory is read (regenerated fact) and the table asked again -/
+def findUnit (rescanOnMiss : Bool) (r : Reg) (id : Nat) : Bool :=
+  r.active.contains id || (rescanOnMiss && r.disk.contains id)
+
+/-- while a work type is being registered, the units found on disk under the stand-in type are taken out of the table and
+read again, one at a time -/
+inductive RStep where
+  | drop (id : Nat)
+  | readd (id : Nat)
+  deriving DecidableEq, Repr
+
+def rstep (r : Reg) : RStep → Reg
+  | .drop id => { r with active := r.active.filter (· != id) }
+  | .readd id => if r.disk.contains id then { r with active := id :: r.active } else r
+
 end Receptor.Crash
